@@ -82,7 +82,46 @@ def gen_mc_prog(rng, max_actors=3, max_ops=4, kinds=("mutex", "sem", "bar", "com
     return new_prog(rec=rec, cap=cap, bar=bar, actors=actors, perm=[0] * nx, timed=False, gran="mc")
 
 
-def run_simgrid_mc(ctx, idx, prog, reduction="odpor", extra_cfg=(), timeout=120):
+def parse_transition(tr, pidmap):
+    """'MUTEX_ASYNC_LOCK(mutex: 0, owner: 1)' -> fields of the checker's view (ids shifted to the specification's 1-based ones)"""
+    d = {"ctype": tr.split("(", 1)[0]}
+    m = re.search(r"(?:mutex|semaphore|barrier): (\d+)|mbox=(\d+)", tr)
+    if m:
+        d["cobj"] = int(m.group(1) if m.group(1) is not None else m.group(2)) + 1
+    m = re.search(r"owner: (-?\d+)", tr)
+    if m:
+        d["cown"] = pidmap.get(int(m.group(1)), 0) if int(m.group(1)) >= 0 else 0
+    m = re.search(r"capacity: (-?\d+)", tr)
+    if m:
+        d["ccap"] = int(m.group(1))
+    m = re.search(r"from (-?\d+) to (-?\d+)", tr)
+    if m:
+        d["cfrom"] = pidmap.get(int(m.group(1)), 0) if int(m.group(1)) >= 0 else 0
+        d["cto"] = pidmap.get(int(m.group(2)), 0) if int(m.group(2)) >= 0 else 0
+    return d
+
+
+def merge_checker_view(trace, cex, nreplay, pidmap):
+    """Attach to the j-th handle line of an application trace the checker's view of that step (the first nreplay steps were
+    replayed in one batch and carry none)."""
+    hs = [r for r in trace if r.get("e") == "handle"]
+    for j, r in enumerate(hs):
+        k = j - nreplay
+        if k < 0:
+            continue
+        if k >= len(cex):
+            r["cmis"] = True
+            continue
+        c = cex[k]
+        r["ca"] = pidmap.get(c["a"], -c["a"])
+        r["ctc"] = c["tc"]
+        if c.get("tr"):
+            r.update(parse_transition(c["tr"], pidmap))
+    if len(cex) > max(0, len(hs) - nreplay) and hs:
+        hs[-1]["cmis"] = True
+
+
+def run_simgrid_mc(ctx, idx, prog, reduction="odpor", extra_cfg=(), timeout=120, with_checker_view=True):
     """Run simgrid-mc on kdrv+prog. Returns dict: rc, out, traces (list of record lists, one per application process = one
     explored execution, each prefixed by the records of the initial segment), deadlock (bool), replays (list of paths),
     counterexamples (list of list of transition strings), stats."""
@@ -109,7 +148,8 @@ def run_simgrid_mc(ctx, idx, prog, reduction="odpor", extra_cfg=(), timeout=120)
                 except ValueError:
                     rs.append({"e": "garbled"})
         recs.append(rs)
-    master = recs[0] if recs else []
+    recs_by_file = recs
+    master = next((rs for rs in recs if any(r.get("e") == "born" for r in rs)), [])   # the process the others are forked from
     pidmap = {r["pid"]: r["a"] for r in master if r.get("e") == "born"}
 
     def clean(rs):
@@ -121,7 +161,23 @@ def run_simgrid_mc(ctx, idx, prog, reduction="odpor", extra_cfg=(), timeout=120)
                 r = dict(r, a=pidmap.get(r["a"], -r["a"]))
             o.append(r)
         return o
-    traces = [clean(master) + clean(rs) for rs in recs[1:]]
+    # hook H4: the checker's own log (cexec / creplay lines, keyed by the pid of the application process)
+    cexec, creplay, pids = {}, {}, []
+    for f, rs in zip(files, recs_by_file):
+        for r in rs:
+            if r.get("e") == "cexec":
+                cexec.setdefault(r["app"], []).append(r)
+            elif r.get("e") == "creplay":
+                creplay[r["app"]] = creplay.get(r["app"], 0) + r["n"]
+    traces = []
+    for f, rs in zip(files, recs_by_file):
+        if rs is master or any(r.get("e") in ("cexec", "creplay") for r in rs):
+            continue
+        pid = int(re.search(r"t_(\d+)", f).group(1))
+        t = clean(master) + clean(rs)
+        if with_checker_view:
+            merge_checker_view(t, cexec.get(pid, []), creplay.get(pid, 0), pidmap)
+        traces.append(t)
     res = {"rc": rc, "out": text, "traces": traces, "deadlock": "DEADLOCK DETECTED" in text,
            "assert": "PROPERTY VIOLATED" in text or "property violation" in text.lower(),
            "replays": re.findall(r"model-check/replay:'([0-9;/]*)'", text), "timeout": rc == 124}
@@ -175,3 +231,72 @@ def replay_path(ctx, idx, prog, path, timeout=30):
         o.append(r)
     shutil.rmtree(d, ignore_errors=True)
     return o, out + err, rc
+
+
+# ------------------------------------------------------------------------------------------- common exploration
+
+def okey(o):
+    return json.dumps({k: o[k] for k in ("obs", "ov", "end")}, sort_keys=True)
+
+
+def regression_progs():
+    return [
+        new_prog(rec=[False, False], actors=[[op("lock", 1), op("lock", 2), op("unlock", 2), op("unlock", 1)],
+                                             [op("lock", 2), op("lock", 1), op("unlock", 1), op("unlock", 2)]], timed=False, gran="mc"),
+        new_prog(rec=[True], bar=[2], perm=[0], actors=[[op("puta", 1, 0, 1), op("put", 1, 0, 1), op("wait", 1)], [op("get", 1), op("geta", 1)]],
+                 timed=False, gran="mc"),
+        new_prog(cap=[0], rec=[False], actors=[[op("acq", 1), op("trylock", 1, 1), op("unlock", 1)], [op("lock", 1), op("rel", 1), op("unlock", 1)],
+                                                [op("trylock", 1, 1), op("unlock", 1)]], timed=False, gran="mc"),
+    ]
+
+
+def programs(ctx, n, max_actors=3, max_ops=4):
+    progs = regression_progs()
+    seen = {vlib.canon_hash(p) for p in progs}
+    while len(progs) < n + 3:
+        p = gen_mc_prog(ctx.rng, max_actors, max_ops)
+        h = vlib.canon_hash(p)
+        if h not in seen:
+            seen.add(h)
+            progs.append(p)
+    return progs
+
+
+def reference(ctx, progs, timeout=900):
+    r, outs = K.mc_explore(ctx, progs, timeout=timeout, tag="mcref")
+    ctx.add_tlc(r)
+    if not r.ok:
+        raise vlib.InfraError("TLC exploration of the MC-granularity programs failed (%s %s)\n%s" % (r.status, r.what[:200], r.out[-3000:]))
+    ctx.cov["reference"] = {"distinct": r.distinct, "generated": r.generated, "wall_s": round(r.wall, 1),
+                            "programs_with_deadlock": sum(1 for o in outs if any(x["end"] == "deadlock" for x in o)),
+                            "programs_with_several_outcomes": sum(1 for o in outs if len(o) > 1)}
+    return outs
+
+
+def explore_all(ctx, progs, reductions, extra_cfg=(), timeout=180):
+    """simgrid-mc on every (program, reduction); returns dict (i, red) -> result (see run_simgrid_mc)."""
+    jobs = [(i, red) for i in range(len(progs)) for red in reductions]
+    drivers.get("kdrv")
+    res = vlib.parallel_map(lambda j: run_simgrid_mc(ctx, j[0] * 10 + reductions.index(j[1]), progs[j[0]], j[1], extra_cfg, timeout),
+                            jobs, nproc=8)
+    return dict(zip(jobs, res))
+
+
+def validate_explorations(ctx, progs, results):
+    """Every execution explored by simgrid-mc must be a behaviour of SgKernel (MC granularity), the checker's view of each
+    transition included (C43). Returns (rejections with key, terminal outcome sets per key)."""
+    keys, traces = [], []
+    for key, r in results.items():
+        for t in with_xend(r["traces"]):
+            keys.append(key)
+            traces.append((key[0], t))
+    outc = []
+    rej = K.validate_traces(ctx, progs, traces, tag="mcx", outcomes=outc, max_rej=8)
+    for x in rej:
+        x["key"] = keys[x["index"]]
+        x["trace"] = traces[x["index"]][1]
+    term = {}
+    for idx, ready, o in outc:
+        if not ready:
+            term.setdefault(keys[idx], set()).add(okey(o))
+    return rej, term
